@@ -509,7 +509,7 @@ func c17Cells() (cells []c17Cell) {
 	hosts := []string{"127.0.0.1", "127.8.9.10", "[::1]", "[fd00::ab:1]", "[2001:db8::1]", "localhost",
 		"[::ffff:1.2.3.4]", "[fe80::1]", "[2001:db8:0:1:a:b:c:d]", "[::2]", "dns.verif.test"}
 	ports := []string{"", "5353"}
-	dials := []string{"", "127.0.0.2", "127.0.0.2:99", "::1", "[::1]:99", "localhost", "localhost:99", "@verif_x"}
+	dials := []string{"", "127.0.0.2", "127.0.0.2:99", "::1", "[::1]:99", "localhost", "localhost:99", "@verif_x", "@verif_y:dot"}
 	for _, s := range schemes {
 		for _, h := range hosts {
 			for _, p := range ports {
